@@ -146,10 +146,31 @@ def run_steady(case, rng, cls, faces, meta, g, m):
         terms.append(pf.convectionUpwindTerm(uf))
         if scheme.endswith('tvd'):
             terms.append(pf.convectionTVDupwindRHSTerm(uf, phi, pf.fluxLimiter(str(rng.choice(LIMITERS)))))
+    react_vec = beta_ = None
+    if rng.random() < 0.5:
+        # a reaction pair that cancels for the uniform field: beta*phi on the left, beta*c on the right
+        beta_ = np.exp(rng.normal(0, 1, g.dims)) * (abs(D[0]).max() / max(g.w[0].min() ** 2, 1e-300) if rng.random() < 0.5 else 1.0 / dt)
+        react_vec = pf.constantSourceTerm(pf.CellVariable(m, beta_ * c))
+        terms += [pf.linearSourceTerm(pf.CellVariable(m, beta_)), react_vec]
+        cov['steady_with_reaction_pair'] = 1
+    # any container for the matrices, any order of the terms (later phases rebuild the transient term and keep the others)
+    rest = gen.vary_terms(rng, terms[1:])
+    rest = [rest[i_] for i_ in rng.permutation(len(rest))]
+    terms = [terms[0]] + rest
+    j_ = int(rng.integers(0, len(rest) + 1))
+    terms_first = rest[:j_] + [terms[0]] + rest[j_:]
     spy = SpySolver()
     with np.errstate(all='ignore'):
-        solve_with(pf, spy, phi, terms, default_path=bool(case['seed'][-1] % 2))
+        solve_with(pf, spy, phi, terms_first, default_path=bool(case['seed'][-1] % 2))
     M, b, x = spy.last
+    resolve = None
+    if np.all(np.isfinite(x)) and rng.random() < 0.6:
+        # the very same list handed to solvePDE again (the variable still holds the uniform field, to rounding): same system
+        phi.value = np.full(g.dims, c)
+        spy_r = SpySolver()
+        with np.errstate(all='ignore'):
+            solve_with(pf, spy_r, phi, terms_first, default_path=bool(case['seed'][-1] % 2))
+        resolve = spy_r.last
     full_c = np.full(int(np.prod(g.full_shape())), c)
     # corner/edge ghost cells are decoupled dummy unknowns (value 0): take them from the solve
     rows = interior_index(g.dims)
@@ -171,6 +192,15 @@ def run_steady(case, rng, cls, faces, meta, g, m):
     cov['flow:%s' % flowfam] = 1
     if not (e <= TOL):
         bad.append(('steady-residual', 'uniform field %g is not a solution of the system solvePDE assembled (%s, flow %s, dt %g): normalised residual %.3g' % (c, scheme, flowfam, dt, e)))
+    if resolve is not None:
+        Mr, br, xr = resolve
+        xcr = full_c.copy()
+        xcr[corner_mask.ravel()] = xr[corner_mask.ravel()]
+        er = residual_err(Mr, xcr, br)
+        maxerr['steady-residual-same-list-again'] = er
+        cov['steady_same_list_again'] = 1
+        if not (er <= TOL):
+            bad.append(('steady-residual', 'the same term list solved a second time: the uniform field %g is not a solution of the system solvePDE assembled (%s, dt %g): normalised residual %.3g' % (c, scheme, dt, er)))
     n = M.shape[0]
     if n <= 500 and np.all(np.isfinite(x)):
         cond = np.linalg.cond(M.toarray(), 1)
@@ -211,7 +241,9 @@ def run_steady(case, rng, cls, faces, meta, g, m):
                 getattr(phi.BCs, sd_).c = spec['sides'][sd_]['b'] * c1
             spy3 = SpySolver()
             with np.errstate(all='ignore'):
-                solve_with(pf, spy3, phi, terms[1:], default_path=bool(case['seed'][-1] % 2))      # steady problem: no transient term
+                # steady problem: no transient term; the reaction pair, if any, now cancels for c1
+                steady_terms = [(pf.constantSourceTerm(pf.CellVariable(m, beta_ * c1)) if t_ is react_vec else t_) for t_ in terms[1:]]
+                solve_with(pf, spy3, phi, steady_terms, default_path=bool(case['seed'][-1] % 2))
             M3, b3, x3 = spy3.last
             full_c1 = np.full(len(full_c), c1)
             full_c1[corner_mask.ravel()] = np.where(np.isfinite(x3[corner_mask.ravel()]), x3[corner_mask.ravel()], 0.0)      # decoupled dummy unknowns
@@ -274,6 +306,25 @@ def run_source(case, rng, cls, faces, meta, g, m):
     cov['source_solve'] = 1
     if not (e <= 1e-12):
         bad.append(('source-ratio', 'beta*phi = gamma alone does not yield gamma/beta in every cell (rel %.3g)' % e))
+    if not bad:
+        # the same cell-local problem written the way term lists look in practice: the source split over two vector terms, the
+        # matrix in any sparse container, the terms in any order - and the list solved again as it stands (next sweep of a loop)
+        t_ = rng.uniform(0.2, 0.8, g.dims)
+        v1 = np.asarray(pf.constantSourceTerm(pf.CellVariable(m, gamma * t_)))
+        v2 = np.asarray(pf.constantSourceTerm(pf.CellVariable(m, gamma * (1.0 - t_))))
+        ex2 = (gamma * t_ + gamma * (1.0 - t_)) / beta
+        tl = gen.vary_terms(rng, [pf.linearSourceTerm(pf.CellVariable(m, beta.copy())), v1, v2], p=0.5)
+        tl = [tl[i_] for i_ in rng.permutation(3)]
+        cont = type(tl[[i_ for i_, t in enumerate(tl) if getattr(t, 'ndim', 1) == 2][0]]).__name__
+        for rnd_ in range(3):
+            with np.errstate(all='ignore'):
+                pf.solvePDE(phi, tl)
+            e = nerr(phi.value, ex2, np.abs(ex2))
+            maxerr['source-ratio-split'] = max(maxerr.get('source-ratio-split', 0.0), e)
+            cov['source_solve_split_list:%s' % cont] = 1
+            if not (e <= 1e-12):
+                bad.append(('source-ratio', 'beta*phi = gamma1 + gamma2 (matrix as %s, solve #%d of the same term list) does not yield (gamma1+gamma2)/beta in every cell (rel %.3g)' % (cont, rnd_ + 1, e)))
+                break
     return bad, cov, maxerr, 'source/' + gen.bc_kind_vector(g, spec), {'beta_head': to_list(beta.ravel()[:4])}, True, None
 
 
